@@ -17,6 +17,9 @@ CONSTANTS Clients,        \* client sockets on A, e.g. {"c1", "c2"}
           LinkMiuA, LinkMiuB,   \* send-miu of A (= B's link receive MIU) and of B
           MaxAcc,         \* bound on accept() calls (model checking)
           ListenerPresent, \* FALSE: the access point exists but nobody listens (raw socket etc.)
+          Hows,           \* how connect() addresses the service: "sap" (CONNECT to the access point), "name" (CONNECT to
+                          \* SAP 1 with the service name B bound: dispatch() rewrites it to the access point and must carry
+                          \* SSAP, MIU and RW over - llc.py dispatch, connect-by-name), "noname" (a name nobody bound: DM 02h)
           EarlyOrder      \* "cc-first": the CC of an accepted connection leaves before data the server sends on it at
                           \* once (the code since the fix "data sent right after accept() overtook the CC");
                           \* "data-first": the code before that fix (accepted sockets are served before the listener)
@@ -32,21 +35,24 @@ vars == <<cl, lst, acc, ab, ba, nacc, lost>>
 
 Addr(c) == CHOOSE f \in [Clients -> 32..63] : \A x, y \in Clients : x # y => f[x] # f[y]
 SapB == 16
-Pdu(t, d, s, miu, rw, reason) == [t |-> t, d |-> d, s |-> s, miu |-> miu, rw |-> rw, reason |-> reason]
+Pdu(t, d, s, miu, rw, reason) == [t |-> t, d |-> d, s |-> s, miu |-> miu, rw |-> rw, reason |-> reason, sn |-> ""]
+SapSdp == 1
+SnOf(how) == IF how = "name" THEN "svc" ELSE IF how = "noname" THEN "nosvc" ELSE ""
 Min(a, b) == IF a < b THEN a ELSE b
 
 Init ==
-    /\ cl \in [Clients -> {[st |-> "CLOSED", rmiu |-> m, rw |-> w, smiu |-> 128, swin |-> 0, peer |-> 0, res |-> "-"] :
+    /\ cl \in [Clients -> {[st |-> "CLOSED", rmiu |-> m, rw |-> w, smiu |-> 128, swin |-> 0, peer |-> 0, res |-> "-", how |-> "-"] :
                            m \in Mius, w \in RWs}]
     /\ \E m \in Mius, w \in RWs : lst = [st |-> IF ListenerPresent THEN "LISTEN" ELSE "NONE", rmiu |-> m, rw |-> w, rq |-> <<>>]
     /\ acc = <<>> /\ ab = <<>> /\ ba = <<>> /\ nacc = 0 /\ lost = FALSE
 
 \* ---- A side -------------------------------------------------------------------------------------
 \* connect(): CLOSED -> CONNECT, the CONNECT PDU is queued (and, in the spec, put on the wire)   tco.py:451-473
-Connect(c) ==
+Connect(c, how) ==
     /\ cl[c].st = "CLOSED" /\ cl[c].res = "-"
-    /\ cl' = [cl EXCEPT ![c].st = "CONNECT"]
-    /\ ab' = Append(ab, Pdu("CONNECT", SapB, Addr(c)[c], cl[c].rmiu, cl[c].rw, 0))
+    /\ cl' = [cl EXCEPT ![c].st = "CONNECT", ![c].how = how]
+    /\ ab' = Append(ab, [Pdu("CONNECT", IF how = "sap" THEN SapB ELSE SapSdp, Addr(c)[c], cl[c].rmiu, cl[c].rw, 0)
+                          EXCEPT !.sn = SnOf(how)])
     /\ UNCHANGED <<lst, acc, ba, nacc, lost>>
 
 ClientOf(a) == CHOOSE c \in Clients : Addr(c)[c] = a
@@ -98,9 +104,14 @@ AccEst(peer) == {i \in AccIdx(peer) : acc[i].st = "ESTABLISHED"}
 
 DeliverB ==
     /\ ab # <<>>
-    /\ LET p == Head(ab) IN
+    /\ LET p0 == Head(ab)
+           \* connect-by-name: the CONNECT is re-addressed to the access point bound under that name; everything else
+           \* the peer announced (SSAP, MIU, RW) stays                                              llc.py dispatch()
+           p  == IF p0.t = "CONNECT" /\ p0.d = SapSdp /\ p0.sn = "svc" THEN [p0 EXCEPT !.d = SapB, !.sn = ""] ELSE p0 IN
        /\ ab' = Tail(ab)
-       /\ CASE p.t = "CONNECT" /\ p.d = SapB ->
+       /\ CASE p.t = "CONNECT" /\ p.d = SapSdp ->      \* no such service: DM reason 02h from the service discovery SAP
+                  lst' = lst /\ acc' = acc /\ ba' = Append(ba, Pdu("DM", p.s, SapSdp, 0, 0, 2))
+            [] p.t = "CONNECT" /\ p.d = SapB ->
                   IF lst.st = "LISTEN"
                   THEN IF Len(lst.rq) < Backlog
                        THEN lst' = [lst EXCEPT !.rq = Append(@, p)] /\ ba' = ba /\ acc' = acc
@@ -172,7 +183,7 @@ RecvNoneAcc(i) ==
     /\ acc' = [acc EXCEPT ![i].st = "SHUTDOWN"]
     /\ UNCHANGED <<cl, lst, ab, ba, nacc, lost>>
 
-Next == \/ \E c \in Clients : Connect(c) \/ CloseClient(c) \/ RecvNone(c)
+Next == \/ \E c \in Clients : (\E how \in Hows : Connect(c, how)) \/ CloseClient(c) \/ RecvNone(c)
         \/ DeliverA \/ DeliverB \/ Accept \/ AcceptSend
         \/ \E n \in RWs : Greeting(n, n)
         \/ \E i \in 1..MaxAcc : CloseAcc(i) \/ RecvNoneAcc(i)
@@ -192,7 +203,8 @@ Agreement == AgreementP(cl, acc)
 \* the listener never holds more connection requests than its backlog
 BacklogOk == Len(lst.rq) <= Backlog
 \* a refusal names its cause
-RefusedRight == \A c \in Clients : /\ cl[c].res = "REFUSED-NOSVC" => ~ListenerPresent
+RefusedRight == \A c \in Clients : /\ cl[c].res = "REFUSED-NOSVC" => (~ListenerPresent \/ cl[c].how = "noname")
+                                   /\ (cl[c].how = "noname" /\ cl[c].res # "-") => cl[c].res = "REFUSED-NOSVC"
                                    /\ cl[c].res = "REFUSED-BUSY" => ListenerPresent
 \* one accepted connection per client address at a time
 OnePerPeer == \A i, j \in DOMAIN acc : i # j /\ acc[i].st # "SHUTDOWN" /\ acc[j].st # "SHUTDOWN" => acc[i].peer # acc[j].peer
@@ -209,4 +221,6 @@ W_Established == ~(\E c \in Clients : cl[c].st = "ESTABLISHED")
 W_Busy        == ~(\E c \in Clients : cl[c].res = "REFUSED-BUSY")
 W_Closed      == ~(\E c \in Clients : cl[c].st = "SHUTDOWN")
 W_PeerClosed  == ~(\E i \in DOMAIN acc : acc[i].st = "SHUTDOWN")
+W_ByName      == ~(\E c \in Clients : cl[c].st = "ESTABLISHED" /\ cl[c].how = "name" /\ cl[c].rmiu > 128)
+W_NoName      == ~(\E c \in Clients : cl[c].res = "REFUSED-NOSVC" /\ cl[c].how = "noname")
 =============================================================================
